@@ -281,6 +281,8 @@ type Sys struct {
 	Env   *Env
 	Gates map[string]*gate.Storage
 	KVs   map[string]*gate.KV
+	// Nodes maps the tree path of every node ("r", "r/0", ...) to its storage.
+	Nodes map[string]blobserver.Storage
 	// Caps
 	CanRemove bool
 	ReadOnly  bool
@@ -322,7 +324,7 @@ func (l *loader) GetStorage(p string) (blobserver.Storage, error) {
 
 // Build constructs cfg over env.
 func Build(cfg *Cfg, env *Env) (*Sys, error) {
-	sys := &Sys{Cfg: cfg, Env: env, Gates: map[string]*gate.Storage{}, KVs: map[string]*gate.KV{}}
+	sys := &Sys{Cfg: cfg, Env: env, Gates: map[string]*gate.Storage{}, KVs: map[string]*gate.KV{}, Nodes: map[string]blobserver.Storage{}}
 	ld := &loader{sys: sys, env: env, pref: map[string]blobserver.Storage{}}
 	sto, canRemove, readOnly, err := build(cfg, "r", sys, ld)
 	if err != nil {
@@ -330,6 +332,7 @@ func Build(cfg *Cfg, env *Env) (*Sys, error) {
 		return nil, err
 	}
 	sys.Sto, sys.CanRemove, sys.ReadOnly = sto, canRemove, readOnly
+	sys.Nodes["r"] = sto
 	return sys, nil
 }
 
@@ -371,6 +374,7 @@ func build(c *Cfg, path string, sys *Sys, ld *loader) (sto blobserver.Storage, c
 		}
 		pref := "/" + p + "/"
 		ld.pref[pref] = s
+		sys.Nodes[p] = s
 		return pref, cr, ro, nil
 	}
 	switch c.Type {
